@@ -10,10 +10,17 @@
 (*                                                                         *)
 (* Verdict(rec) judges one OBSERVATION RECORD of one executed command:     *)
 (*   rec.kind    special | builtin | function | group | subshell | pipe |  *)
-(*               notfound | external | empty | exec |                      *)
+(*               notfound | external | empty | exec (without operands) |   *)
+(*               exec WITH operands, by what becomes of the utility:       *)
+(*               execnf (no such utility in PATH) | execnx (a pathname     *)
+(*               that does not exist) | execne (a file that cannot be      *)
+(*               executed) | execdir (a directory) | execxf (found, but    *)
+(*               the system refuses to execute it) |                       *)
 (*               dot (`. file`) | cmddot (`command . file`): the command   *)
 (*               body is read from a file, for which the shell needs a     *)
 (*               descriptor of its own while the body runs                 *)
+(*   rec.inter   the command is executed by an interactive shell (not in a *)
+(*               subshell of it)                                           *)
 (*   rec.nc      noclobber option on                                       *)
 (*   rec.lim     RLIMIT_NOFILE in force (AbsNoLimit = not lowered)         *)
 (*   rec.flt     a system call of the shell was made to fail while the     *)
@@ -46,7 +53,19 @@ RunKinds  == {"special", "builtin", "function", "group", "subshell", "pipe", "do
 \* special built-ins: an error (of a redirection, or of the built-in itself: XCU
 \* 2.8.1, and `dot`: "if no readable file is found, a non-interactive shell shall
 \* abort") ends a non-interactive shell; not so through `command`
-ExitKinds == {"special", "exec", "dot"}
+\* `exec utility` whose utility cannot be executed (XCU exec: "If exec is
+\* specified with a utility ... any redirections shall take effect"; exit status
+\* 127 if the utility is not found, 126 if it is found but cannot be invoked; a
+\* non-interactive shell exits, an interactive one need not; the manual,
+\* builtins/exec.md: the redirections are made permanent "even if there are
+\* operands", observable "when the utility cannot be invoked and the shell does
+\* not exit"; "if the shell is not interactive, the current shell process will
+\* exit with an error")
+ExecOpKinds == {"execnf", "execnx", "execne", "execdir", "execxf"}
+ExecKinds   == {"exec"} \cup ExecOpKinds
+\* (an interactive shell does not exit on these errors: XCU 2.8.1 "the shell
+\* shall not exit" in the interactive column)
+ExitKinds == {"special", "exec", "dot"} \cup ExecOpKinds
 \* commands that need a descriptor of the shell's own to run at all
 NeedsFd   == {"dot", "cmddot"}
 
@@ -175,21 +194,25 @@ AbsMarks(S, wr) ==
 -----------------------------------------------------------------------------
 (* Comparing an observed table with the prescribed one.  Descriptions      *)
 (* opened by the list must be new ones, distinct exactly as prescribed.    *)
-AttrOK(o, e) ==
+\* (used: the description has been written through since it was opened - a
+\* diagnostic message - so that its offset and, if it is the temporary file of a
+\* here-document that happens to be writable, its content are not prescribed)
+AttrOK(o, e, used) ==
   /\ e.path = o.path
   /\ e.r = o.r
   /\ (o.w = "u" \/ e.w = (o.w = "y"))
   /\ e.app = o.app
-  /\ e.off = 0
-  /\ (o.path = "#" => e.data = o.data)
+  /\ (used \/ e.off = 0)
+  /\ (o.path = "#" => (e.data = o.data \/ (used /\ o.w = "u")))
 
-MatchTab(T, O, Ob, known) ==
+MatchTabU(T, O, Ob, known, used) ==
   /\ DOMAIN T = DOMAIN Ob
   /\ \A f \in DOMAIN T :
         IF T[f] >= 0 THEN Ob[f].id = T[f]
-        ELSE Ob[f].id \notin known /\ AttrOK(O[T[f]], Ob[f])
+        ELSE Ob[f].id \notin known /\ AttrOK(O[T[f]], Ob[f], T[f] \in used)
   /\ \A f, g \in DOMAIN T :
         (T[f] < 0 /\ T[g] < 0) => ((T[f] = T[g]) <=> (Ob[f].id = Ob[g].id))
+MatchTab(T, O, Ob, known) == MatchTabU(T, O, Ob, known, {})
 
 UserPart(tab) == LET B == TabFn(tab) IN [f \in {g \in DOMAIN B : ~B[g].cx} |-> B[f]]
 
@@ -212,7 +235,9 @@ ExecAfterClause(rec, S) ==
       cxc == IF A = B THEN {}
              ELSE IF B \subseteq A /\ \A x \in A \ B : x[1] >= 10 THEN {"after_leak"}
              ELSE {"after_changed"}
-  IN cxc \cup (IF MatchTab(S.T, S.O, UserPart(rec.after), Ids(rec.before)) THEN {} ELSE {"after_exec"})
+      \* `exec utility` failed: a diagnostic message went to what descriptor 2 had become
+      used == IF rec.kind \in ExecOpKinds /\ 2 \in DOMAIN S.T THEN {S.T[2]} ELSE {}
+  IN cxc \cup (IF MatchTabU(S.T, S.O, UserPart(rec.after), Ids(rec.before), used) THEN {} ELSE {"after_exec"})
 
 ExpectedStatus(rec) ==
   CASE rec.kind \in RunKinds -> rec.bst
@@ -220,13 +245,18 @@ ExpectedStatus(rec) ==
     [] rec.kind = "external" -> 126        \* found but cannot be executed (XCU 2.8.2)
     [] rec.kind = "empty"    -> 0
     [] rec.kind = "exec"     -> 0
+    [] rec.kind \in {"execnf", "execnx"} -> 127
+    [] rec.kind \in {"execne", "execdir", "execxf"} -> 126
 
 Clauses(rec, S) ==
   LET failed == S.fail # 0
       runs   == rec.kind \in RunKinds /\ ~failed
       M      == IF runs /\ rec.ran THEN AbsMarks(S, rec.wr)
                 ELSE [O |-> S.O, F |-> S.F, good |-> TRUE, taint |-> {}]
-      taint  == M.taint \cup (IF failed \/ rec.kind \in {"notfound", "external"} THEN ErrPath(S) ELSE {})
+      taint  == M.taint \cup (IF failed \/ rec.kind \in {"notfound", "external"} \cup ExecOpKinds
+                               THEN ErrPath(S) ELSE {})
+      \* the shell ends because of this command
+      exits  == ~rec.inter /\ (IF failed THEN rec.kind \in ExitKinds ELSE rec.kind \in ExecOpKinds)
       F1     == FilesFn(rec.files1)
       filesOK == \A p \in DOMAIN M.F :
                     \/ p \in taint
@@ -239,11 +269,15 @@ Clauses(rec, S) ==
      \cup (IF InternalOK(rec.before) /\ InternalOK(rec.after) /\ (rec.ran => InternalOK(rec.in))
            THEN {} ELSE {"internal"})
      \cup (IF M.good THEN {} ELSE {"wr"})
-     \cup (IF rec.kind = "exec" /\ ~failed THEN ExecAfterClause(rec, S) ELSE AfterClause(rec))
+     \* redirections on `exec` persist, with or without operands; where the shell
+     \* ends with the failed `exec utility` nobody can observe its table any more
+     \cup (IF rec.kind \in ExecKinds /\ ~failed
+           THEN (IF rec.kind \in ExecOpKinds /\ exits /\ rec.exited THEN {} ELSE ExecAfterClause(rec, S))
+           ELSE AfterClause(rec))
      \cup (IF ~rec.stchk THEN {}
            ELSE IF failed THEN (IF rec.st >= 1 /\ rec.st <= 125 THEN {} ELSE {"status"})
            ELSE IF rec.st = ExpectedStatus(rec) THEN {} ELSE {"status"})
-     \cup (IF ~rec.stchk \/ rec.exited = (failed /\ rec.kind \in ExitKinds) THEN {} ELSE {"exit"})
+     \cup (IF ~rec.stchk \/ rec.exited = exits THEN {} ELSE {"exit"})
      \cup (IF ~rec.fchk \/ filesOK THEN {} ELSE {"files"})
 
 (* Allowed outcomes: the operators' own meaning; under a lowered limit, or *)
